@@ -4,14 +4,14 @@ CONSTANTS
  Ids = {"A", "B"}
  N = 2
  RA = 50
- Kinds = {"ok", "s500", "s429ra", "reset", "s404", "s401n"}
- MaxFaults = 4
+ Kinds = {"ok", "s500", "reset", "s404"}
+ MaxFaults = 3
  MaxSeeks = 0
  Conc = 2
  RelNR = TRUE
  FixLeak = TRUE
  PrioAsc = TRUE
- Rs = {2, 3}
+ Rs = {2}
  Prios = {0}
  Meths = {"GET", "PUT"}
  Waive <- WaiveNone
